@@ -1254,6 +1254,10 @@ func Run(c *hx.Ctx) error {
 	n := c.Budget(40000, 2000000)
 	r := hx.NewRng(c.Seed)
 	done := 0
+	batches, maxBatches := 0, n
+	if maxBatches > 300000 {
+		maxBatches = 300000
+	}
 	for done < n {
 		sc, err := genScenario(r, c)
 		if err != nil {
@@ -1285,7 +1289,11 @@ func Run(c *hx.Ctx) error {
 			sc.runCond(c, r)
 			done++
 		}
-		// write batches through the real PointsWriter.routeAndMapOriginRows (batch.go)
+		// write batches through the real PointsWriter.routeAndMapOriginRows (batch.go), then whole
+		// statements through the real ClusterShardMapper.MapShards (readmap.go); capped, the lines are long
+		if batches >= maxBatches {
+			continue
+		}
 		if bs, berr := genBatchScenario(r, c); berr != nil {
 			c.Count("skipped:batch-scenario:" + strings.SplitN(berr.Error(), ":", 2)[0])
 		} else {
@@ -1298,6 +1306,11 @@ func Run(c *hx.Ctx) error {
 			nb := 3 + r.Intn(8)
 			for i := 0; i < nb; i++ {
 				bs.runBatch(c, r)
+				batches++
+			}
+			nq := 3 + r.Intn(6)
+			for i := 0; i < nq; i++ {
+				bs.runMapQuery(c, r)
 			}
 		}
 	}
